@@ -8,6 +8,7 @@ VIEW View
 ACTION_CONSTRAINT Emit
 INVARIANT TypeOK
 INVARIANT ProtoAgrees
+INVARIANT SelectIsNewestNotNewer
 INVARIANT OutcomeIsLibrary
 PROPERTY ErrorsPreserveRegistry
 PROPERTY ErrorNamesTheMissingThing
@@ -23,6 +24,7 @@ PROPERTY AwakeWrittenUnchanged
 PROPERTY WakeReleasesExactlyThatNode
 PROPERTY FlushFaultLosesNothing
 PROPERTY PresRequestRule
+PROPERTY PresentationRearms
 PROPERTY NoRequestBefore20
 PROPERTY IdsFreshInRangeDistinct
 PROPERTY TooManyOnlyWhenFull
